@@ -428,6 +428,156 @@ def _contraction(ctx, padded, uhf=False):
     ctx.assume_note("interface precondition: overlap_KAB_x = (beta_i+beta_j) dS/dX_i = 2 dM_AB/dX_i (task overlap_scaling); e1b_x/e2a_x carry the upper triangle; all *_x blocks are derivatives w.r.t. the pair's first atom and the pair terms depend on X_j - X_i only (translation: dE/dX_j = -dE/dX_i)")
 
 
+def replay_nac_covariance(model):
+    """real code: AM1/CIS nonadiabatic coupling vectors of a tilted, distorted formaldehyde before and after a generic rotation +
+    translation: each NAC vector must rotate with the molecule (up to the arbitrary sign of a CIS state)."""
+    import io, contextlib, math
+    import torch
+    from seqm.seqm_functions.constants import Constants
+    from seqm.Molecule import Molecule
+    from seqm.ElectronicStructure import Electronic_Structure
+
+    torch.set_default_dtype(torch.float64)
+    sp = torch.tensor([[8, 6, 1, 1]])
+    x0 = torch.tensor([[[0.03, 0.02, -0.01], [1.19, 0.31, 0.22], [1.71, 1.21, 0.35], [1.85, -0.55, 0.41]]])
+
+    def rot(a, b, c):
+        ca, sa, cb, sb, cc, sc = math.cos(a), math.sin(a), math.cos(b), math.sin(b), math.cos(c), math.sin(c)
+        Rz = torch.tensor([[ca, -sa, 0], [sa, ca, 0], [0, 0, 1.0]])
+        Ry = torch.tensor([[cb, 0, sb], [0, 1.0, 0], [-sb, 0, cb]])
+        Rx = torch.tensor([[1.0, 0, 0], [0, cc, -sc], [0, sc, cc]])
+        return Rz @ Ry @ Rx
+
+    def nac(x):
+        params = {"method": "AM1", "scf_eps": 1e-10, "scf_converger": [1], "sp2": [False, 1e-5], "elements": [0, 1, 6, 8], "learned": [], "pair_outer_cutoff": 1e10, "eig": True,
+                  "excited_states": {"n_states": 3, "method": "cis", "tolerance": 1e-10}, "nonadiabatic": {"compute_nac": True}, "active_state": 1, "analytical_gradient": [True]}
+        mol = Molecule(Constants(), params, x, sp)
+        with contextlib.redirect_stdout(io.StringIO()):
+            Electronic_Structure(params)(mol)
+        return {k: v[0].detach().clone() for k, v in mol.nac.items()}
+
+    R = rot(0.7, -0.4, 1.1)
+    a = nac(x0)
+    b = nac(x0 @ R.T + torch.tensor([0.3, -1.2, 0.8]))
+    worst = 0.0
+    for k in a:
+        ra = a[k] @ R.T
+        dev = min(float((ra - b[k]).abs().max()), float((ra + b[k]).abs().max()))
+        worst = max(worst, dev / max(1e-12, float(a[k].abs().max())))
+    return {"reproduced": worst > 1e-6, "max_relative_deviation_from_covariance": worst, "state_pairs": [str(k) for k in a]}
+
+
+def nac_contraction(ctx, padded=False):
+    """the derivative operators nac.py assembles (overlap / exchange block, Coulomb-dressed core-attraction blocks, upper triangles
+    doubled) contracted with a SYMMETRIC transition density B equal  sum_(mu nu) B_(mu nu) dF_(mu nu)/dX  with F the REAL fock at the
+    ground-state density (F is linear in (M, w) at fixed P, so dF/dX is fock evaluated on the derivative blocks with the
+    geometry-independent one-centre integrals set to zero).  Hence the coupling vectors are covariant whenever the integral
+    derivatives are (C01 / C02 tasks) -- and every entry of both core-attraction blocks must carry its weight."""
+    from contracts.C06_nddo_model import fock_inputs
+    from contracts.md_common import Obj
+    import seqm.seqm_functions.nac as NAC
+
+    NM = "seqm.seqm_functions.nac"
+    fb = ctx.under_contract(NM + ":_build_nac_derivative_operators", stubs=["overlap_der_finiteDiff", "w_der"])
+    fcn = ctx.under_contract(NM + ":_contract_nac_density_batch")
+    ff = ctx.under_contract("seqm.seqm_functions.fock:fock")
+    from contracts.es_common import batch_description
+
+    # [CO, CH]: a pair of two heavy atoms (the second atom's core-attraction block has all ten entries) and a heavy-hydrogen pair
+    d = batch_description(False, species=[[8, 6], [6, 1]])
+    npairs = len(d.pairs)
+    n = 4 * d.molsize
+    P = st.zeros(d.nmol, n, n)
+    B = st.zeros(d.nmol, n, n)
+    for m in range(d.nmol):
+        for i in range(n):
+            for j in range(i, n):
+                # nothing on the p slots of hydrogen (atom 1 of molecule 1)
+                if m == 1 and (i > 4 or j > 4):
+                    continue
+                P.a[m, i, j] = P.a[m, j, i] = real("P_%d_%d_%d" % (m, i, j))
+                B.a[m, i, j] = B.a[m, j, i] = real("B_%d_%d_%d" % (m, i, j))
+    ov = st.symbolic((npairs, 3, 4, 4), "ov")
+    wx = st.symbolic((npairs, 3, 10, 10), "wx")
+    e1 = st.zeros(npairs, 3, 4, 4)
+    e2 = st.zeros(npairs, 3, 4, 4)
+    for k in range(npairs):
+        for c in range(3):
+            for i in range(4):
+                for j in range(i, 4):
+                    e1.a[k, c, i, j] = real("e1_%d_%d_%d_%d" % (k, c, i, j))
+                    e2.a[k, c, i, j] = real("e2_%d_%d_%d_%d" % (k, c, i, j))
+    zero_onec = st.zeros(len(d.flat))
+    nat = len(d.flat)
+    mol = Obj(rij=st.symbolic((npairs,), "rij"), xij=st.symbolic((npairs, 3), "xij"), idxi=d.idxi, idxj=d.idxj, ni=d.ni, nj=d.nj, Z=d.Z, mask=d.mask, maskd=d.maskd,
+              parameters={k: st.symbolic((nat,), k) for k in ("zeta_s", "zeta_p", "g_ss", "g_pp", "g_p2", "h_sp")}, const=Obj(qn_int=st.tensor([0, 1, 1, 2, 2, 2, 2, 2, 2, 2]), tore=st.zeros(10)))
+    mol.parameters["beta"] = st.symbolic((nat, 2), "beta")
+
+    def ov_stub(overlap_x, *a):
+        overlap_x.a[...] = ov.a
+        return None
+
+    def wder_stub(const, Z, tore, ni, nj, w_x, *a):
+        w_x.a[...] = wx.a
+        return e1.clone(), e2.clone()
+
+    def blocks(X):
+        return X.reshape(d.nmol, d.molsize, 4, d.molsize, 4).transpose(2, 3).reshape(d.nmol * d.molsize * d.molsize, 4, 4).clone()
+
+    def thunk():
+        Pb = blocks(P)
+        ops = fb(mol, Pb, object(), object(), st.float64, st._CPU)
+        Bb = blocks(B).reshape(d.nmol * d.molsize * d.molsize, 1, 4, 4)
+        nacv = fcn(mol, Bb, ops[0], ops[1], ops[2], d.nmol, d.molsize)
+        specs = {}
+        for a, (m, ia, z) in enumerate(d.flat):
+            for c in range(3):
+                sgn = [(1 if int(d.idxi.a[k]) == a else (-1 if int(d.idxj.a[k]) == a else 0)) for k in range(npairs)]
+                if not any(sgn):
+                    specs[(a, c)] = S(0.0)
+                    continue
+                M1 = st.zeros(d.nmol * d.molsize * d.molsize, 4, 4)
+                w1 = st.zeros(npairs, 10, 10)
+                for k in range(npairs):
+                    if not sgn[k]:
+                        continue
+                    M1.a[int(d.mask.a[k])] = M1.a[int(d.mask.a[k])] + sgn[k] * (ov.a[k, c] * Fraction(1, 2))
+                    bi, bj = int(d.maskd.a[int(d.idxi.a[k])]), int(d.maskd.a[int(d.idxj.a[k])])
+                    M1.a[bi] = M1.a[bi] + sgn[k] * e1.a[k, c]
+                    M1.a[bj] = M1.a[bj] + sgn[k] * e2.a[k, c]
+                    w1.a[k] = sgn[k] * wx.a[k, c]
+                F1 = ff(d.nmol, d.molsize, P, M1, d.maskd, d.mask, d.idxi, d.idxj, w1, None, zero_onec, zero_onec, zero_onec, zero_onec, zero_onec, "AM1", None, None, None, d.Z, None, None)
+                specs[(a, c)] = sum((B.a[m, i, j] * F1.a[m, i, j] for i in range(n) for j in range(n)), S(0))
+        return nacv, specs
+
+    ex = ctx.explore(thunk, stubs={NM + ":overlap_der_finiteDiff": ov_stub, NM + ":w_der": wder_stub}, name="nac operators", constants={"a0": real("a0")})
+    if len(ex.paths) != 1 or ex.paths[0].raised is not None:
+        p0 = ex.paths[0] if ex.paths else None
+        if p0 is not None and isinstance(p0.raised, Unmodelled):
+            raise p0.raised
+        ctx.error("nac_contraction.paths", "%r %s" % ([p.raised for p in ex.paths], p0.notes.get("traceback", "")[-900:] if p0 else ""))
+        return
+    nacv, specs = ex.paths[0].value
+    tag = "nac_contraction." + ("padded" if padded else "dense")
+    rep = []
+    rp = lambda mdl: (rep or rep.append(_rquiet(replay_nac_covariance)) or rep)[0]
+    for a, (m, ia, z) in enumerate(d.flat):
+        for c in range(3):
+            ctx.prove_eq("%s.nac[mol%d,atom%d,%d]=sum B dF/dX" % (tag, m, ia, c), nacv.a[m, 0, ia, c], specs[(a, c)], shape="batch [CO, CH]", replay=rp,
+                         classify=lambda m_, r: "nac-derivative-operator-weights")
+    ctx.assume_note("nac_contraction: interface as in the gradient contraction (overlap block = 2 dM_AB/dX_i, upper triangles of the core-attraction blocks, derivatives w.r.t. the pair's first atom); one state pair; the division by the energy gap and the construction of B from CIS amplitudes are not covered; batch [CO, CH]")
+
+
+def _rquiet(fn):
+    import contextlib, io
+
+    with contextlib.redirect_stdout(io.StringIO()):
+        try:
+            return fn({})
+        except Exception as exc:  # noqa
+            return {"reproduced": False, "error": repr(exc)[:300]}
+
+
 def task_contraction_uhf(ctx):
     """O4, unrestricted reference: the contraction with different alpha / beta densities (batch of two molecules) equals the
     variation of the real open-shell elec_energy(P, fock_u_batch(P))."""
